@@ -1,11 +1,11 @@
 #!/bin/sh
-# seedintake.sh Cxx : copy /tmp/seed_out/Cxx/{1,2,3} to /verif/seeded/Cxx-k/ (patch.diff, demo.py, meta.json)
-pid=$1
+# seedintake.sh Cxx [srcroot=/tmp/seed_out] [offset=0] : copy <srcroot>/Cxx/{1..5} to /verif/seeded/Cxx-(k+offset)/ (patch.diff, demo.py, meta.json)
+pid=$1; root=${2:-/tmp/seed_out}; off=${3:-0}
 for k in 1 2 3 4 5; do
-  src=/tmp/seed_out/$pid/$k
+  src=$root/$pid/$k
   [ -f $src/patch.diff ] || continue
-  dst=/verif/seeded/$pid-$k
+  dst=/verif/seeded/$pid-$((k+off))
   mkdir -p $dst
   cp $src/patch.diff $src/demo.py $src/meta.json $dst/ 2>/dev/null
 done
-ls /verif/seeded | grep "^$pid-"
+ls /verif/seeded | grep "^$pid-" | tr '\n' ' '
